@@ -411,7 +411,8 @@ type path struct {
 	errCount  int
 	spec      int // >0 while speculating a pure arm (diamond merging)
 
-	world *threadWorld // C20 environment (threads.go)
+	world    *threadWorld // C20 environment (threads.go)
+	loadPlan *loadPlan    // C17 environment (threads.go)
 
 	intRanges  map[*Term][2]int64
 	decided    map[*Term]bool
